@@ -191,7 +191,7 @@ def _verify(sig_type, pub, signed, sig):
 
 # ---- deviations --------------------------------------------------------------------------------------------------------------
 DEVIATIONS = ['none', 'bad-name', 'forged-sig', 'substituted-key', 'kl-elsewhere', 'missing-cert', 'nack-cert', 'unsigned',
-              'digest-only', 'loop', 'wrong-signer-level', 'wrong-id', 'hmac-with-public-key', 'kl-wrong-digest', 'cert-as-packet', 'kl-truncated', 'self-loop']
+              'digest-only', 'loop', 'wrong-signer-level', 'wrong-id', 'hmac-with-public-key', 'kl-wrong-digest', 'cert-as-packet', 'kl-truncated', 'self-loop', 'kl-alias']
 
 
 def build_packets(h, spec, store, policy):
@@ -228,6 +228,13 @@ def build_packets(h, spec, store, policy):
             x_name = c['name'][:-1] + [comp('selfloop')]
             store[tuple(x_name)] = _raw_cert(x_name, K.KEYS[c['key']]['pub'], _signer(c['key'], x_name))
             out.append((dev, *h.data_packet(who, 1, signer_level=d, kl=x_name)))
+    elif dev == 'kl-alias':
+        # the key locator names the certificate with its version number in ANOTHER octet width (one leading zero octet more): a
+        # different name that reads the same as a URI; nobody issued a certificate under it, so nothing can be retrieved
+        c = h.certs[d]
+        el = T.read_tlv(c['name'][-1], 0, len(c['name'][-1]))
+        alias = T.enc_tlv(el[0], b'\x00' + bytes(c['name'][-1][el[2]:el[3]]))
+        out.append((dev, *h.data_packet(who, 1, kl=c['name'][:-1] + [alias])))
     elif dev == 'kl-truncated':
         # the key locator stops at the key name: a proper prefix of the certificate's name, itself the name of nothing
         c = h.certs[d]
@@ -760,6 +767,18 @@ def run_burst(case):
                 return r
             if not all(got):
                 return r.bad(f'C14/burst/rejects-valid-chain/round-{rnd}', f'{got.count(False)} of {len(got)} valid packets refused (depth {case["depth"]})')
+        if case.get('storage') == 'empty' and case.get('withdraw') is not None:
+            # the caller chose to keep NO keys: every validation retrieves its certificates anew.  One certificate of the chain is
+            # withdrawn (no longer served) after the validations above: a packet depending on it has no retrievable chain now
+            lvl = 1 + case['withdraw'] % case['depth']
+            del store[tuple(h.certs[lvl]['name'])]
+            late = [h.data_packet(IDS[0], case['k'] + 1)[1], wires[0]]
+            got = _validate_many(sim, v, late, r)
+            if got is None:
+                return r
+            if any(got):
+                return r.bad('C14/burst/accepts-invalid-chain/certificate-withdrawn-no-key-cache',
+                             f'certificate of level {lvl} (depth {case["depth"]}) is no longer retrievable and the validator keeps no keys: verdicts {got}')
     finally:
         try:
             sim.finish()
@@ -778,7 +797,7 @@ def _burst_case():
     ecrsa = [k for k in KEYPOOL if K.KEYS[k]['kind'] in ('ec', 'rsa')]
     return st.fixed_dictionaries({'k': st.sampled_from([40, 20, 12, 8, 17, 33, 64]), 'depth': st.sampled_from([4, 3, 2]),
                                   'latency_ms': st.sampled_from([0, 1, 10]), 'storage': st.sampled_from(['default', 'empty', 'forgetful']),
-                                  'abandon': st.booleans(),
+                                  'abandon': st.booleans(), 'withdraw': st.sampled_from([None, 0, 1, 2, 3]),
                                   'keys': st.lists(st.sampled_from(ecrsa), min_size=5, max_size=5)})
 
 
